@@ -18,6 +18,8 @@ pub enum Cfg {
     Alt(Box<Cfg>, String),
     /// layers, each with the inner base path it is mounted from ("" = that filesystem's root)
     Ovl(Vec<(Cfg, String)>),
+    /// n layers that are sub-directories /__lay0 .. /__lay{n-1} of ONE shared filesystem instance
+    OvlShared(Box<Cfg>, usize),
 }
 
 impl Cfg {
@@ -27,6 +29,7 @@ impl Cfg {
             Cfg::Phys => "Phys".into(),
             Cfg::Alt(c, p) => format!("Alt({}@{:?})", c.desc(), p),
             Cfg::Ovl(ls) => format!("Ovl[{}]", ls.iter().map(|(c, b)| format!("{}@{:?}", c.desc(), b)).collect::<Vec<_>>().join(",")),
+            Cfg::OvlShared(c, n) => format!("OvlShared[{} sub-directories /__layK of one {}]", n, c.desc()),
         }
     }
     /// kinds only (used in signatures and coverage cells)
@@ -36,6 +39,7 @@ impl Cfg {
             Cfg::Phys => "Phys".into(),
             Cfg::Alt(c, _) => format!("Alt({})", c.shape()),
             Cfg::Ovl(ls) => format!("Ovl[{}]", ls.iter().map(|(c, _)| c.shape()).collect::<Vec<_>>().join(",")),
+            Cfg::OvlShared(c, n) => format!("OvlShared{}({})", n, c.shape()),
         }
     }
     /// coarse family for finding signatures: which implementations take part
@@ -54,6 +58,10 @@ impl Cfg {
                     for (c, _) in ls {
                         walk(c, h)
                     }
+                }
+                Cfg::OvlShared(c, _) => {
+                    h.3 = true;
+                    walk(c, h)
                 }
             }
         }
@@ -74,7 +82,7 @@ impl Cfg {
         match self {
             Cfg::Mem | Cfg::Phys => false,
             Cfg::Alt(c, _) => c.has_overlay(),
-            Cfg::Ovl(_) => true,
+            Cfg::Ovl(_) | Cfg::OvlShared(..) => true,
         }
     }
     pub fn has_phys(&self) -> bool {
@@ -83,6 +91,7 @@ impl Cfg {
             Cfg::Phys => true,
             Cfg::Alt(c, _) => c.has_phys(),
             Cfg::Ovl(ls) => ls.iter().any(|(c, _)| c.has_phys()),
+            Cfg::OvlShared(c, _) => c.has_phys(),
         }
     }
     pub fn depth(&self) -> usize {
@@ -90,6 +99,7 @@ impl Cfg {
             Cfg::Mem | Cfg::Phys => 0,
             Cfg::Alt(c, _) => 1 + c.depth(),
             Cfg::Ovl(ls) => 1 + ls.iter().map(|(c, _)| c.depth()).max().unwrap_or(0),
+            Cfg::OvlShared(c, _) => 1 + c.depth(),
         }
     }
 }
@@ -101,6 +111,8 @@ pub enum Role {
     AltUnder { of: usize, base: String },
     /// layer `idx` of overlay node `of`, mounted from `base`
     Layer { of: usize, idx: usize, base: String },
+    /// the one filesystem whose sub-directories `bases[k]` are the layers of overlay node `of`
+    SharedUnder { of: usize, bases: Vec<String> },
 }
 
 #[derive(Clone, Debug)]
@@ -197,6 +209,18 @@ fn build_node(cfg: &Cfg, role: Role, ctx: &mut Ctx) -> usize {
             ctx.nodes[id].kind = "Ovl";
             ctx.nodes[id].root = VfsPath::new(MonFs::new(Box::new(OverlayFS::new(&paths)), id, ctx.ctl.clone()));
         }
+        Cfg::OvlShared(inner, n) => {
+            let bases: Vec<String> = (0..*n).map(|k| format!("/__lay{}", k)).collect();
+            let child = build_node(inner, Role::SharedUnder { of: id, bases: bases.clone() }, ctx);
+            let mut paths = vec![];
+            for b in &bases {
+                let lp = at(&ctx.nodes[child].root, b);
+                lp.create_dir_all().expect("set-up: create layer base");
+                paths.push(lp);
+            }
+            ctx.nodes[id].kind = "Ovl";
+            ctx.nodes[id].root = VfsPath::new(MonFs::new(Box::new(OverlayFS::new(&paths)), id, ctx.ctl.clone()));
+        }
     }
     id
 }
@@ -213,7 +237,7 @@ impl Built {
         self.nodes
             .iter()
             .filter(|n| match &n.role {
-                Role::AltUnder { of, .. } | Role::Layer { of, .. } => *of == id,
+                Role::AltUnder { of, .. } | Role::Layer { of, .. } | Role::SharedUnder { of, .. } => *of == id,
                 Role::Top => false,
             })
             .map(|n| n.id)
@@ -229,8 +253,73 @@ impl Built {
                 _ => None,
             })
             .collect();
+        for n in &self.nodes {
+            if let Role::SharedUnder { of, bases } = &n.role {
+                if *of == id {
+                    for (k, b) in bases.iter().enumerate() {
+                        v.push((k, n.id, at(&n.root, b), b.clone()));
+                    }
+                }
+            }
+        }
         v.sort_by_key(|x| x.0);
         v.into_iter().map(|x| (x.1, x.2, x.3)).collect()
+    }
+
+    /// Regions that belong to lower layers (idx >= 1) of any overlay of the stack: (node, path prefix within that
+    /// node's namespace; "" = the whole filesystem of that node).
+    pub fn lower_regions(&self) -> Vec<(usize, String)> {
+        let mut whole: std::collections::BTreeSet<usize> = std::collections::BTreeSet::new();
+        let mut regions: Vec<(usize, String)> = vec![];
+        for n in &self.nodes {
+            match &n.role {
+                Role::Layer { idx, .. } if *idx >= 1 => {
+                    whole.insert(n.id);
+                }
+                Role::SharedUnder { bases, .. } => {
+                    for b in bases.iter().skip(1) {
+                        regions.push((n.id, b.clone()));
+                    }
+                }
+                _ => {}
+            }
+        }
+        loop {
+            let mut changed = false;
+            for n in &self.nodes {
+                let parent = match &n.role {
+                    Role::AltUnder { of, .. } | Role::Layer { of, .. } | Role::SharedUnder { of, .. } => Some(*of),
+                    Role::Top => None,
+                };
+                if let Some(p) = parent {
+                    if whole.contains(&p) && whole.insert(n.id) {
+                        changed = true;
+                    }
+                }
+            }
+            if !changed {
+                break;
+            }
+        }
+        regions.extend(whole.into_iter().map(|n| (n, String::new())));
+        regions
+    }
+
+    /// Views (node id, root path of the view) whose deep state must never change: one per lower layer.
+    pub fn lower_views(&self) -> Vec<(usize, VfsPath)> {
+        let mut v = vec![];
+        for n in &self.nodes {
+            match &n.role {
+                Role::Layer { idx, .. } if *idx >= 1 => v.push((n.id, n.root.clone())),
+                Role::SharedUnder { bases, .. } => {
+                    for b in bases.iter().skip(1) {
+                        v.push((n.id, at(&n.root, b)));
+                    }
+                }
+                _ => {}
+            }
+        }
+        v
     }
 }
 
@@ -248,6 +337,10 @@ pub fn gen_cfg(rng: &mut Rng, max_depth: usize, phys: bool, max_layers: usize) -
             let inner = gen_cfg(rng, max_depth - 1, phys, max_layers);
             Cfg::Alt(Box::new(inner), rng.pick(ALT_BASES).to_string())
         }
+        3 if rng.chance(1, 3) => {
+            let inner = gen_cfg(rng, max_depth - 1, phys, 2);
+            Cfg::OvlShared(Box::new(inner), rng.range(2, max_layers.max(2)))
+        }
         _ => {
             let n = rng.range(1, max_layers.max(1));
             let mut layers = vec![];
@@ -259,4 +352,18 @@ pub fn gen_cfg(rng: &mut Rng, max_depth: usize, phys: bool, max_layers: usize) -
             Cfg::Ovl(layers)
         }
     }
+}
+
+
+/// Does this recorded call touch a lower-layer region?
+pub fn event_in_regions(e: &crate::monfs::Event, regions: &[(usize, String)]) -> bool {
+    regions.iter().any(|(n, p)| {
+        // paths a call can change: its only path; for copy_file the destination only; for moves both
+        let touched: Vec<&String> = match (e.method, e.path2.as_ref()) {
+            ("copy_file", Some(d)) => vec![d],
+            (_, Some(d)) => vec![&e.path, d],
+            (_, None) => vec![&e.path],
+        };
+        e.node == *n && (p.is_empty() || touched.into_iter().any(|q| q == p || crate::model::is_under(q, p)))
+    })
 }
